@@ -329,7 +329,7 @@ var c16Letters = []string{
 // RunC16 decides the post-change-hook half of C16 at the RIB tier.
 func RunC16(rep *report.Report, tier string) {
 	depth := 4
-	ck := NewClock(tier, 100*time.Second, 20*time.Minute, 22)
+	ck := NewClock(tier, 100*time.Second, 20*time.Minute, 23)
 	if tier == "thorough" {
 		depth = 7 // (budget-bounded: the search reports the depth it completed)
 	}
@@ -378,6 +378,14 @@ func RunC16(rep *report.Report, tier string) {
 		Merge(rep, "resolved-entry-hook/network-instance-created-late", res, depth-1)
 		o2 := &Options{Letters: letters, Checks: Checks{Hooks: true}, Hook: HookAfterNIs, LateVRF: true, Init: Alphabet(late...)}
 		Search(rep, "rib/hook-config-1/network-instance-created-late", o2, depth-1, ck.Next())
+	}
+	{
+		// the POST-CHANGE hook inside one controlled execution with a lagging consumer: notifications that a change
+		// hands to goroutines (instead of delivering them before it returns) only run at the end, after the
+		// notifications of later changes
+		o := &Options{Letters: rl, Lag: true, Hook: HookAfterNIs, Init: Alphabet(ribInits["entries-installed"]...)}
+		res := mc.BFS(mc.Config{Letters: Names(rl), New: NewResolved(o), MaxDepth: depth - 2, Deadline: ck.Next(), Workers: 1})
+		Merge(rep, "post-change-hook/lagging-consumer/from-entries-installed", res, depth-2)
 	}
 	for _, name := range []string{"entries-installed", "groups-in-default-only", ""} {
 		o := &Options{Letters: rl, Lag: true}
